@@ -722,3 +722,21 @@ def r14(rr, repo):
 def r15(rr, repo):
     from .c02 import r13 as c02r13
     c02r13(rr, repo)
+
+
+@rule('C01.R16', "a synchronized source stays synchronized whatever its address looks like: the '?' / '??' mark that takes a source out of the id synchronisation (its frames are no longer checked against the shared "
+                 "expected id, a newer id elsewhere no longer invalidates its set) is read off the END of the address only - an endpoint name may contain a question mark anywhere else ('ipc://./cam?1')")
+def r16(rr, repo):
+    za = anchors(repo)
+    binds = [n for n in ast.walk(za.RS_init) if (isinstance(n, ast.NamedExpr) and U(n.target) == 'ephemeral') or (isinstance(n, ast.Assign) and U(n.targets[0]) == 'ephemeral')]
+    rr.floor('classifications of a source address as ephemeral', len(binds), 1, za.mod, za.RS_init)
+    addr = q.func_params(za.RS_init)[2] if len(q.func_params(za.RS_init)) > 2 else 'addr_connect'
+    for n in binds:
+        calls = [c for c in ast.walk(n.value) if isinstance(c, ast.Call) and isinstance(c.func, ast.Attribute) and U(c.func.value) == addr]
+        other = [x for x in ast.walk(n.value) if isinstance(x, ast.Compare) and any(isinstance(o, (ast.In, ast.NotIn)) for o in x.ops) and any(U(c_) == addr for c_ in x.comparators)]
+        tail_only = bool(calls) and all(c.func.attr == 'endswith' and c.args and q.const_str(c.args[0]) and set(c.args[0].value) == {'?'} for c in calls) and not other
+        anywhere = any(c.func.attr in ('count', 'find', 'index', 'rfind', 'partition', 'split') for c in calls) or bool(other)
+        if tail_only or anywhere:
+            rr.ob('the ephemeral mark is the trailing "?" / "??" of the address, nothing else in it', tail_only, za.mod, n, witness=U(n.value)[:100], key='ephemeral-mark-is-a-suffix')
+        else:
+            rr.unresolved('how a source address is classified as ephemeral was not recognised', za.mod, n, witness=U(n.value)[:100], key='ephemeral-mark-is-a-suffix')
